@@ -240,7 +240,7 @@ class ToolsEngine(DiffEngine):
 
 
 ENGINE = ToolsEngine("tools", classify=classify, stateful=False,
-                     sizes={"quick": (8, 350), "thorough": (24, 1300)},
+                     sizes={"quick": (16, 450), "thorough": (32, 1300)},
                      rule="each run loads topologies (generated synthetic descriptions incl. attached NUMA nodes, caches, groups, "
                           "non-trivial os_index orders, > 64 PUs; bundled XML files with I/O and Misc objects) as each tool loads them and "
                           "runs the real tools in forked children: hwloc-calc on generated option/location lists (all operators, the "
